@@ -143,6 +143,12 @@ H(name="hdr_key_decrypt", crate="kestrel-crypto", mod="decrypt::verif_hdr_dec", 
 H(name="hdr_pass_decrypt", crate="kestrel-crypto", mod="decrypt::verif_hdr_dec", props=["C02", "C03", "C06", "C09", "C13", "C10"], auto_props=["C09"], est_s=90,
   desc="pass_decrypt on ANY bytes: wrong magic / truncated header => Err before any key derivation or write; key = scrypt(password, bytes 4..36, 32768, 8, 1, 32) with constant cost parameters; chunk loop gets (key, aad = magic, 65536) right after byte 36",
   funcs=["decrypt::pass_decrypt", "decrypt::valid_file_format"], bounds="every byte string of length 0..60 as file head; passwords of 0..4 bytes", env=HDR_ENV, outside="")
+H(name="hdr_key_decrypt_short_reads", crate="kestrel-crypto", mod="decrypt::verif_hdr_dec_x", ext=True, props=["C10", "C01"], est_s=90, replay="model",
+  desc="key_decrypt accepts an authentic 132-byte header whether the source delivers each field whole or one byte short (rest on the next call), consumes exactly 132 bytes; a header that ends early is an error",
+  funcs=["decrypt::key_decrypt"], bounds="file head 0..140 bytes with the key-mode magic, contents unconstrained; source: whole reads or every request one byte short", env=HDR_ENV, outside="sources that split a field in more than two reads (std read_exact is uniform in the number of retries)")
+H(name="hdr_pass_decrypt_short_reads", crate="kestrel-crypto", mod="decrypt::verif_hdr_dec_x", ext=True, props=["C10", "C02"], est_s=90, replay="model",
+  desc="pass_decrypt accepts an authentic 36-byte header whether each field arrives whole or one byte short, consumes exactly 36 bytes; a header that ends early is an error",
+  funcs=["decrypt::pass_decrypt"], bounds="file head 0..60 bytes with the password-mode magic; source: whole reads or every request one byte short", env=HDR_ENV, outside="as hdr_key_decrypt_short_reads")
 H(name="dec_wrong_key_cs2", crate="kestrel-crypto", mod="decrypt::verif_hdr_dec", props=["C02", "C13"], est_s=200,
   desc="decrypt_chunks under ANOTHER key than the file was sealed with (E-KDF: different password => different scrypt key): Err on the first chunk for every byte stream, zero writes/flushes",
   funcs=DEC_FUNCS, bounds="chunk size 2, authentic file of 1..2 chunks, any stream of 0..70 bytes", env=[E_AEAD, E_ZERO, "E-KDF: scrypt is injective in the password (cryptographic assumption)"], outside="scrypt collisions")
